@@ -5,3 +5,31 @@ claim(
     "Trusted: the list model and the type-rank table (unplug<plug-in<recompute) in acnverif/props/c11.py; integer timestamps; ties on (timestamp, type) may come out in any order.",
     "DESIGN.md 3/C11",
 )
+claim(
+    "C13",
+    "Hypothesis-generated EVSEs with the complete +-tolerance boundary grid of pilots vs. an independent acceptance predicate and state snapshots",
+    "Exploration: 1 500 (quick) / 150 000 (thorough) generated EVSEs of all three classes, ~30 pilots each (every boundary of the allowable set at 9 offsets around the 1e-3 A tolerance, plus random pilots), applied directly or through the network, with and without a connected EV; accepted/rejected is compared with an independent predicate, rejected pilots must leave pilot/EV/battery untouched, and every value advertised by EVSE, network cache, Interface and InfrastructureInfo must be accepted.",
+    "Trusted: the per-class predicate and the 1e-9 A guard band in acnverif/props/c13.py; rates and bounds are non-negative.",
+    "DESIGN.md 3/C13",
+)
+claim(
+    "C14",
+    "Hypothesis-generated battery states and pilot sequences vs. an independent closed-form ODE solution; metamorphic T=T/2+T/2, monotonicity, zero pilot, reset",
+    "Exploration: 4 000 (quick) / 600 000 (thorough) generated (battery, trajectory) cases; every step is compared with an independently written closed form of the documented law (1e-9*capacity), which is itself cross-checked against RK4 on a sample; plus the split-period identity, monotonicity in pilot and period, exact zero for a zero pilot and reset semantics. The stepwise model is compared with its documented per-step formula only.",
+    "Trusted: acnverif/oracles/battery_law.py; non-zero pilots >= 1e-8 A; stored charge read from the battery's state attribute.",
+    "DESIGN.md 3/C14",
+)
+claim(
+    "C03",
+    "Hypothesis-generated pilot sequences with generated noise draws (numpy.random.normal patched) through EVSE->EV->Battery, invariant bounds after every step; simulation-level column-wise bound on generated simulations",
+    "Exploration: 3 000 (quick) / 400 000 (thorough) generated sequences of up to 30 pilots on all battery models and noise levels, the noise draws being part of the generated input (incl. +-6 sigma), with unplug/re-plug of the same EV; after every step 0<=rate<=pilot, power<=max, rate*V=power, charge non-decreasing and <= capacity. Plus generated whole simulations checking 0<=charging_rates<=pilot_signals.",
+    "Trusted: slack constants (1e-8 A, 1e-9 relative power, 1e-12*capacity); non-zero pilots >= 1e-8 A.",
+    "DESIGN.md 3/C03",
+)
+claim(
+    "C06",
+    "Hypothesis-generated networks and boundary-aimed schedule matrices vs. an exact (fsum) phasor predicate with guard band; three-way differential of the checkers; metamorphic linear=>phase-aware; re-check after update_constraint",
+    "Exploration: 3 000 (quick) / 400 000 (thorough) generated (network, tolerances, schedule) cases, about half within 3 tolerances of a limit, compared on four entry points (network, interface dict form, algorithm-side 2-D and 1-D) in phase-aware and linear mode against the definition, before and after in-place constraint updates; constraint-free networks accept everything and all three bundled schedulers complete a simulation on them.",
+    "Trusted: acnverif/oracles/phasor.py; guard band 1e-10*(1+limit) (cases inside are counted, not judged); the algorithm-side function is passed the same tolerances explicitly.",
+    "DESIGN.md 3/C06",
+)
